@@ -404,8 +404,16 @@ class ClassObject(Object, Callable):
             # must not merge itself again)
             self._merging = True
             try:
+                root = vars(object)
                 for b in reversed(self.bases):
-                    attrs.update(b._attrs)
+                    for k, v in iteritems(b._attrs):
+                        if (k in attrs and isinstance(v, RuntimeName)
+                                and k in root and v.value is root[k]):
+                            # `object` ends every MRO: what a base merely
+                            # inherits from it does not hide the definition
+                            # of a later base
+                            continue
+                        attrs[k] = v
             finally:
                 self._merging = False
         attrs.update(self._cls_attrs)
